@@ -174,7 +174,9 @@ PoolAccept(r) ==
          ELSE Refused(g)
 
 -----------------------------------------------------------------------------
-WriteAccept(r) == IF Skipped(r.got) THEN TRUE ELSE OutputOK(r.got)
+(* a class duke has read must be written; only the hand-made local variable *)
+(* variant may find nothing to work on                                      *)
+WriteAccept(r) == IF Skipped(r.got) THEN r.variant = "lvt" ELSE OutputOK(r.got)
 
 Accept(r) ==
     /\ HasF(r, "got") /\ ~HasF(r.got, "panic")
